@@ -53,7 +53,9 @@ def instances(tier, seed):
     # settings written for the merging of conditionally-active flags are always part of the sub-pool
     flag = [i for i in c10_inst if 'flag merge' in i['label'] and i['kind'] != 'pattern']
     # pattern encoders list their design vectors per existence pattern through their own (possibly transposed) look-up
-    flag += [i for i in c10_inst if i['kind'] == 'pattern']
+    flag += [i for i in c10_inst if i['kind'] == 'pattern' and i.get('c10_kind') != 'interference']
+    # a manager that has corrected vectors before must report the same activeness afterwards (interference harness)
+    flag += [i for i in c10_inst if i.get('c10_kind') == 'interference' and i['kind'] in ('eager', 'enum')]
     picked = eager[:n_e]+other[:n_o]
     picked += [i for i in flag if i not in picked]
     for i in picked:
@@ -222,10 +224,38 @@ def _run_enumdecode(inst, res):
     reports inactive variables at the canonical value, a variable not flagged conditionally active is active in every
     row, and decoding each row with and without materialising the instance returns the row and its activeness."""
     from adsg_core import GraphProcessor
-    gp, g, info = dsg_pool.make_processor(inst['template'])
-    x_all, act_all = gp.get_all_discrete_x()
-    dvs = gp.des_vars
     name = inst['template']
+    gp, g, info = dsg_pool.make_processor(name)
+    _enum_vs_decode(gp, name, res, None)
+    n_rows = res['paths']
+    # the same with one variable fixed (every value of the first two variables that can be fixed): the contract holds for
+    # the restricted problem as well
+    gp0 = gp
+    n_fix = 0
+    for k, dv in enumerate(gp0.all_des_vars):
+        if not dv.is_discrete or any(s_ <= k < e_ for _, _, _, s_, e_, _ in gp0._conn_choice_data_map.values()):
+            continue
+        for val in range(dv.n_opts):
+            gp_f, _, _ = dsg_pool.make_processor(name)
+            try:
+                gp_f.fix_des_var(gp_f.all_des_vars[k], val)
+                if len(gp_f.des_vars) > 0:
+                    _enum_vs_decode(gp_f, name, res, (k, val))
+            except RuntimeError as e:  # an empty restricted problem
+                res['notes'].append(f'fix {k}={val}: {e}')
+        n_fix += 1
+        if n_fix >= 2:
+            break
+    res['paths'] = max(1, n_rows)
+    res['sample'] = dict(harness=inst['label'], rows=n_rows, note='auxiliary concrete check (free problem and single fixes)')
+
+
+def _enum_vs_decode(gp, name, res, fixed):
+    x_all = gp.get_all_discrete_x()
+    if x_all is None:
+        return
+    x_all, act_all = x_all
+    dvs = gp.des_vars
     for r, a in zip(np.array(x_all).tolist(), np.array(act_all).tolist()):
         res['obligations'] += 1
         problems = []
@@ -258,13 +288,14 @@ def _run_enumdecode(inst, res):
             if not same(d):
                 problems.append(f'decode(create={create}) of listed row gives {d}')
         if problems:
-            _viol(res, 'enum_vs_decode', dict(kind='enumeration_vs_decode', template=name, what=problems[0].split(' ')[0]), dict(template=name),
-                  dict(row=r, active=a), problems[:3], 'canonical inactive values; decode of a listed row returns it with the same activeness')
+            _viol(res, 'enum_vs_decode', dict(kind='enumeration_vs_decode', template=name, what=problems[0].split(' ')[0], fixed=fixed is not None),
+                  dict(template=name), dict(row=r, active=a, fixed=list(fixed) if fixed else None), problems[:3],
+                  'canonical inactive values; decode of a listed row returns it with the same activeness')
         else:
             res['discharged'] += 1
         res['validated'] += 1
-    res['paths'] = max(1, len(x_all))
-    res['sample'] = dict(harness=inst['label'], rows=len(x_all), note='auxiliary concrete check')
+    if fixed is None:
+        res['paths'] = max(1, len(x_all))
 
 
 def _run_inactive(inst, res):
